@@ -116,7 +116,7 @@ def labels_body_factory(ctx):
         serial = np.round(rv_kms).astype(int) % 1000
         # error must belong to the same observation
         exp_err = 1.0 + 0.001 * (block * 50 + serial)
-        if np.max(np.abs(err_kms - exp_err)) > 1e-9:
+        if not (np.max(np.abs(err_kms - exp_err)) <= 1e-9):
             raise Violation("velocity and uncertainty of one observation were separated")
         true_labels = [keys[k] for k in tag_survey]
         ids_l = list(np.asarray(ids).tolist()) if ns > 1 or case["data_kind"] != "single" else list(ids)
